@@ -219,6 +219,12 @@ func (b *vfC16Builder) winLine(payload string, allowF12 bool, ctrlCAt int) (f12 
 				}
 				stray := vfBodyAlphabet[rapid.IntRange(0, len(vfBodyAlphabet)-1).Draw(rt, "stray")]
 				b.out.WriteString("\x08\x1b[?25h\x1b[?25l\x1b[H")
+				// the console repaints the top-left cell with its attributes: colour / visibility / erase sequences and padding
+				// may sit between the cursor-home and the character
+				for m := rapid.IntRange(0, 2).Draw(rt, "home_attrs"); m > 0; m-- {
+					b.out.WriteString(rapid.SampledFrom([]string{"\x1b[0m", "\x1b[01;32m", "\x1b[K", "\x1b[2K", "\x1b[?25h", "\x1b[?25l", "\x1b[39;49m", " ", "\x1b[1C"}).Draw(rt, "home_attr"))
+					b.kind("attrs_between_home_and_stray")
+				}
 				b.out.WriteByte(stray)
 				b.out.WriteString(vfCUP(rt) + "\x1b[?25h\x1b[?25l\r\n")
 				newlineSinceLetter = true
